@@ -11,6 +11,30 @@ package memory
 // add) must leave the stored index as it was. So the index handed out is never
 // the stored object and shares no Entry with it, and what SetIndex stores is
 // a copy the caller cannot reach.
+// copyIndex: as in storage/filesystem -- the copy shares no Entry with the
+// original and carries the same entry data.
+//gvc:func copyIndex
+//gvc:  props C29
+//gvc:  theory int
+//gvc:  requires nn: idx != nil
+//gvc:  loop 1 invariant len: len(cp.Entries) == len(idx.Entries)
+//gvc:  loop 1 invariant rest: forall(a, it1, len(idx.Entries), cp.Entries[a] == nil)
+//gvc:  loop 1 invariant live: forall(a, 0, len(idx.Entries), allocated(cp.Entries[a]))
+//gvc:  loop 1 invariant sep: forall(a, 0, it1, forall(b, 0, len(idx.Entries), cp.Entries[a] == nil || cp.Entries[a] != idx.Entries[b]))
+//gvc:  loop 1 invariant nils: forall(a, 0, it1, (idx.Entries[a] == nil) == (cp.Entries[a] == nil))
+//gvc:  loop 1 invariant hash: forall(a, 0, it1, idx.Entries[a] != nil ==> cp.Entries[a].Hash == idx.Entries[a].Hash)
+//gvc:  loop 1 invariant meta: forall(a, 0, it1, idx.Entries[a] != nil ==> cp.Entries[a].Mode == idx.Entries[a].Mode && cp.Entries[a].Size == idx.Entries[a].Size && cp.Entries[a].Stage == idx.Entries[a].Stage && cp.Entries[a].SkipWorktree == idx.Entries[a].SkipWorktree && cp.Entries[a].IntentToAdd == idx.Entries[a].IntentToAdd)
+//gvc:  loop 1 invariant name: forall(a, 0, it1, idx.Entries[a] != nil ==> same_string(cp.Entries[a].Name, idx.Entries[a].Name))
+//gvc:  ensures fresh: result != nil && result != idx
+//gvc:  ensures len: len(result.Entries) == len(idx.Entries)
+//gvc:  ensures sep: forall(a, 0, len(idx.Entries), forall(b, 0, len(idx.Entries), result.Entries[a] == nil || result.Entries[a] != idx.Entries[b]))
+//gvc:  ensures nils: forall(a, 0, len(idx.Entries), (idx.Entries[a] == nil) == (result.Entries[a] == nil))
+//gvc:  ensures hash: forall(a, 0, len(idx.Entries), idx.Entries[a] != nil ==> result.Entries[a].Hash == idx.Entries[a].Hash)
+//gvc:  ensures meta: forall(a, 0, len(idx.Entries), idx.Entries[a] != nil ==> result.Entries[a].Mode == idx.Entries[a].Mode && result.Entries[a].Size == idx.Entries[a].Size && result.Entries[a].Stage == idx.Entries[a].Stage && result.Entries[a].SkipWorktree == idx.Entries[a].SkipWorktree && result.Entries[a].IntentToAdd == idx.Entries[a].IntentToAdd)
+//gvc:  ensures name: forall(a, 0, len(idx.Entries), idx.Entries[a] != nil ==> same_string(result.Entries[a].Name, idx.Entries[a].Name))
+//gvc:  ensures untouched: forall(a, 0, len(idx.Entries), idx.Entries[a] == old(idx.Entries[a]))
+//gvc:end
+
 //gvc:func (*IndexStorage).Index
 //gvc:  props C29
 //gvc:  theory int
